@@ -75,9 +75,16 @@ def calculateSingleWith (ds : Dataset) (cs : ConnSet) (p : Params) (accessFoot e
     let cx := mkCtx ds p cs accessFoot egressFoot (-1) p.time
     singleReverse cx (fun _ => true)
 
+/-- Everything a calculation reads about trips concerns trips of its connection set (the legs of
+    a journey are built from scanned connections).  The model makes that explicit: below the
+    entry points the dataset is restricted to the trips of `cs` (and its scenario table, already
+    resolved into `cs`, is dropped). -/
+def Dataset.restrict (ds : Dataset) (cs : ConnSet) : Dataset :=
+  { ds with trips := ds.trips.filter (fun t => cs.trips.contains t.id), scenarios := [] }
+
 /-- with the per-scenario connection set `cs` the calculator obtained from `TransitData` -/
 def calculateSingleCS (ds : Dataset) (cs : ConnSet) (p : Params) : Outcome Route :=
-  calculateSingleWith ds cs p (routerLookup ds.access p.maxAccess) (routerLookup ds.egress p.maxEgress)
+  calculateSingleWith (ds.restrict cs) cs p (routerLookup ds.access p.maxAccess) (routerLookup ds.egress p.maxEgress)
 
 def calculateSingle (ds : Dataset) (p : Params) : Outcome Route :=
   calculateSingleCS ds (ds.connSetOf (ds.scenarioOf p)) p
@@ -144,7 +151,8 @@ def collectNodes (f : Nat → Outcome (Option AccNode)) : List Nat → List AccN
     | .exception w => .exception w
 
 /-- `Calculator::calculateAllNodes`; result: nodes (ascending stop id) and `totalNodeCount` -/
-def calculateAllNodesCS (ds : Dataset) (cs : ConnSet) (p : Params) : Outcome (List AccNode × Nat) :=
+def calculateAllNodesCS (ds0 : Dataset) (cs : ConnSet) (p : Params) : Outcome (List AccNode × Nat) :=
+  let ds := ds0.restrict cs
   if p.forward then
     let accessFoot := routerLookup ds.access p.maxAccess
     if accessFoot.isEmpty then .noRouting .noAccessAtOrigin else
@@ -250,7 +258,8 @@ def altLoop (ds : Dataset) (cs : ConnSet) (pAlt : Params) (baseExcept : List Nat
       else altLoop ds cs pAlt baseExcept accessFoot egressFoot fuel (i+1) st
 
 /-- `Calculator::alternativesRouting`: routes and `totalAlternativesCalculated` -/
-def alternativesRoutingCS (ds : Dataset) (cs : ConnSet) (p : Params) : Outcome (List Route × Nat) :=
+def alternativesRoutingCS (ds0 : Dataset) (cs : ConnSet) (p : Params) : Outcome (List Route × Nat) :=
+  let ds := ds0.restrict cs
   let accessFoot := routerLookup ds.access p.maxAccess
   let egressFoot := routerLookup ds.egress p.maxEgress
   match calculateSingleWith ds cs p accessFoot egressFoot with
